@@ -343,8 +343,12 @@ class Explainer:
         want = obs_sig(c)
         ck = case_key(v)
 
+        base = mech_sig(v) if "mech" in v else None
+
         def match(sig):
             keys = [k for k in (focus or want.keys()) if k in want or k in sig]
+            if base is not None and all(sig.get(k) == base.get(k) for k in keys):
+                return False        # a deviation that changes nothing here explains nothing
             return all(sig.get(k) == want.get(k) for k in keys)
         for ds in self.devsets:
             if any(match(s) for s in self.table.get((ck, "+".join(sorted(ds))), [])):
